@@ -197,7 +197,7 @@ void caller_locale_remove();                      // end of a task body
 void on_mem_access(uintptr_t a, size_t n, bool write, uintptr_t pc);   // from callbacks and ranged seams
 void on_edge(uintptr_t pc);
 void virt_access(int loc, bool write, const char* what, uintptr_t pc); // virtual shared locations
-enum { VL_LOCALE_NUMERIC = 0, VL_LOCALE_OTHER, VL_STRTOK, VL_RAND, VL_TM, VL_ENV, VL_LOCALECONV, VL_CWD, VL_N };
+enum { VL_LOCALE_NUMERIC = 0, VL_LOCALE_OTHER, VL_STRTOK, VL_RAND, VL_TM, VL_ENV, VL_LOCALECONV, VL_CWD, VL_HSEARCH, VL_SIGNGAM, VL_CVTBUF, VL_N };
 void sched_visible(const char* what);   // a visible operation is about to happen (targeted strategy)
 void race_forget_range(uintptr_t a, size_t n);
 void race_touch(uintptr_t a, size_t n, bool write, uintptr_t pc);  // detector only, no yield
